@@ -35,6 +35,12 @@ def run(ctx):
     ctx.floor('R13.3', M.rule_collect_gate(ctx, 'R13.3', 'R13.3u'), 11)
     ctx.rule('R13.4', 'wasted-track conversions copy histories in order and last entries via back()')
     ctx.floor('R13.4', M.rule_wasted_conversions(ctx, 'R13.4'), 17)
+    from props import C07, C01
+    ctx.rule('R13.8', 'the boxes that enter the histories and the record are the ones observed / estimated: the filter takes '
+                      'the plain coordinates of a box (no re-encoding on the way in), the record reads the last history entries')
+    n = C07.measurement_rule(ctx, 'R13.8')
+    ctx.evaluated('R13.8', n, 42)
+    C01.r2(ctx, 'R13.9')
     import wiring
     ctx.rule('R13.7', 'the metric works with the configured bounds and thresholds themselves (builder hands '
                       'visual_max_observations, collect thresholds ... over unchanged); observations carry the given quality')
